@@ -181,3 +181,53 @@ Definition irr_is_root (tol : Q) (irr_percent : Q) (iTot : list Q) : bool :=
   let r := irr_percent / 100 in
   let sc := npv_red (Qabs (1 + r) - 1) (map Qabs iTot) in
   Qle_bool (Qabs (npv_red r iTot)) (tol * sc).
+
+(* ---------------------------------------------------------------------------------------------
+   Add-ons (EconomicsAddOns.Calculate): the add-on totals enter the project cash flow additively   *)
+Record addon_in := {
+  a_kind : kind;                 (* KElec: electricity only; KHeat / KCool: end-use HEAT; KCogen: both *)
+  a_cy : nat; a_ccap : Q; a_coam : Q;
+  a_capex : Q; a_opex : Q; a_egain : Q; a_hgain : Q; a_profit : Q;     (* add-on totals *)
+  a_net : list Q; a_heat : list Q;                                    (* yearly kWh (add-on gains already included) *)
+  a_pE : list Q; a_pH : list Q }.                                      (* yearly prices, operating years only *)
+
+Definition sells_elec (k : kind) : bool := match k with KElec | KCogen => true | _ => false end.
+Definition sells_heat (k : kind) : bool := match k with KElec => false | _ => true end.
+
+Definition addon_elec_revenue (a : addon_in) : list Q :=
+  map (fun p => (if sells_elec (a_kind a) then a_egain a else 0) * p / million) (a_pE a).
+Definition addon_heat_revenue (a : addon_in) : list Q :=
+  map (fun p => (if sells_heat (a_kind a) then a_hgain a else 0) * p / million) (a_pH a).
+Definition addon_revenue (a : addon_in) : list Q :=
+  map2 (fun e h => e + h + a_profit a - a_opex a) (addon_elec_revenue a) (addon_heat_revenue a).
+Definition addon_cashflow (a : addon_in) : list Q :=
+  repeat (- (1) * (a_capex a / natQ (a_cy a))) (a_cy a) ++ addon_revenue a.
+
+(* the base project's own operating cash flow: (E*pE + H*pH)/1e6 - Coam *)
+Definition project_ops (a : addon_in) : list Q :=
+  let eE := if sells_elec (a_kind a) then a_net a else map (fun _ => 0) (a_net a) in
+  let eH := if sells_heat (a_kind a) then a_heat a else map (fun _ => 0) (a_heat a) in
+  map2 (fun ep hp => (ep + hp) / million - a_coam a) (map2 Qmult eE (a_pE a)) (map2 Qmult eH (a_pH a)).
+Definition addon_project_cashflow (a : addon_in) : list Q :=
+  repeat (- (1) * ((a_ccap a + a_capex a) / natQ (a_cy a))) (a_cy a) ++ map2 Qplus (addon_revenue a) (project_ops a).
+
+(* add-on payback: crossing of the add-on cumulative cash flow between consecutive years (no wrap-around here) *)
+Definition addon_payback (initial : Q) (cum : list Q) : Q :=
+  match cum with [] => initial | c0 :: rest => payback_loop c0 1 rest initial end.
+
+Definition addon_agree (tol : Q) (a : addon_in) (life : nat) (rate_percent : Q) (disc : bool)
+           (iERev iHRev iRev iACF iPCF iACum iPCum : list Q) (iNPV iVIR iMOIC iAdjCapex iAdjOpex : Q) : bool :=
+  let pcf := addon_project_cashflow a in
+  let sc := scale_of pcf in
+  Nat.eqb (length (a_pE a)) life && Nat.eqb (length (a_pH a)) life &&
+  Nat.eqb (length (a_net a)) life && Nat.eqb (length (a_heat a)) life &&
+  all_close tol (addon_elec_revenue a) iERev && all_close tol (addon_heat_revenue a) iHRev &&
+  all_close_scale tol sc (addon_revenue a) iRev && all_close_scale tol sc (addon_cashflow a) iACF &&
+  all_close_scale tol sc pcf iPCF &&
+  all_close_scale tol (scale_of iACum) (running_red_from 0 iACF) iACum &&
+  all_close_scale tol (scale_of iPCum) (running_red_from 0 iPCF) iPCum &&
+  close tol (a_ccap a + a_capex a) iAdjCapex && close tol (a_coam a + a_opex a) iAdjOpex &&
+  let ssum := sumQ_red (map Qabs iPCF) in
+  close_scale tol ssum (calculate_npv_red (rate_percent / 100) iPCF disc) iNPV &&
+  close_scale tol (ssum / Qabs iAdjCapex) (vir iNPV iAdjCapex) iVIR &&
+  close tol (last iPCum 0 / (iAdjCapex + iAdjOpex * natQ life)) iMOIC.
